@@ -454,6 +454,7 @@ func Conclude(root string, meta Meta, tier string, seed int64, m *Result, wall f
 		"bounds":                        m.Bounds,
 		"known_findings_hit":            knownList,
 		"notes":                         m.Notes,
+		"harness_errors":                m.HarnessErrors,
 	}
 	if len(m.Samples) == 0 {
 		cov["samples"] = []any{"(no case was executed)"}
@@ -482,10 +483,16 @@ func Conclude(root string, meta Meta, tier string, seed int64, m *Result, wall f
 	fmt.Printf("%s %s: evaluations=%d nontrivial=%d states=%d transitions=%d traces=%d outcomes=%d exhaustive=%v wall=%.1fs\n",
 		meta.Property, tier, m.Evaluations, m.Nontrivial, m.States, m.Transitions, m.Traces, len(m.Outcomes), !m.Capped, wall)
 	if len(m.HarnessErrors) > 0 {
-		for _, e := range m.HarnessErrors {
-			fmt.Println("HARNESS-ERROR:", e)
+		for i, e := range m.HarnessErrors {
+			if i < 10 {
+				fmt.Println("HARNESS-ERROR:", e)
+			}
 		}
-		return 2
+		if len(fresh) == 0 {
+			return 2
+		}
+		// violations with a witness stand on their own (each can be replayed); the harness errors are
+		// listed above and in the evidence
 	}
 	if len(fresh) == 0 {
 		return 0
